@@ -343,6 +343,41 @@ def parse (P : PyRe) (C : Codec) (text : List UInt8) : Option Dict :=
   | none => none
   | some s => parseLines P (splitLines s) []
 
+
+/-! ### a consuming project: `TargetDatabase.__getitem__` on a loaded inventory -/
+
+/-- `re.sub(r"\s+", " ", target)` (`normalize_target`): every maximal whitespace run becomes one
+space (`inWs` = the previous character belonged to a run already replaced) -/
+def normalizeAux (P : PyRe) : Bool → List Char → List Char
+  | _, [] => []
+  | inWs, c :: cs =>
+    if P.isSpace c then (if inWs then normalizeAux P true cs else ' ' :: normalizeAux P true cs)
+    else c :: normalizeAux P false cs
+
+def normalizeWs (P : PyRe) (l : List Char) : List Char := normalizeAux P false l
+
+/-- `inventory.get(key)` -/
+def dictGet (d : Dict) (k : List Char) : Option Entry := d.lookup k
+
+/-- `key.replace("\\\\", "\\")`: every non-overlapping pair of backslashes, left to right, becomes one -/
+def unescapeBackslash : List Char → List Char
+  | '\\' :: '\\' :: r => '\\' :: unescapeBackslash r
+  | c :: r => c :: unescapeBackslash r
+  | [] => []
+
+def phpPrefix : List Char := ['m', 'o', 'n', 'g', 'o', 'd', 'b', ':', 'p', 'h', 'p']
+
+/-- the entry one loaded inventory contributes to `TargetDatabase.__getitem__(key)`, `key` already
+normalised: the exact spelling first, then the lower-cased key (`lowerKey = key.lower()`, a parameter:
+`str.lower` depends on the Unicode tables), then, for `mongodb:php…` keys, the un-escaped key. -/
+def resolveIn (d : Dict) (key lowerKey : List Char) : Option Entry :=
+  match dictGet d key with
+  | some e => some e
+  | none =>
+    match dictGet d lowerKey with
+    | some e => some e
+    | none => if phpPrefix.isPrefixOf key then dictGet d (unescapeBackslash key) else none
+
 /-! ### dirhtml URIs and inventory generation -/
 
 def knownSuffixes : List (List Char) :=
